@@ -3,6 +3,7 @@ import TucanProofs.Lemmas.V2000File
 import TucanProofs.Lemmas.Tables
 import TucanProofs.Lemmas.Files
 import TucanProofs.Lemmas.FilesExample
+import TucanProofs.Lemmas.PropBlockText
 /-!
 # C08 — the V2000 reader agrees with V3000 on the same molecule
 
@@ -10,6 +11,13 @@ About the V2000 reader model: fixed-column fields, property lines with any numbe
 supersession rules, the charge-code table.  The whole reader (`graphAttributesV2000`) is tied to the code
 by the correspondence on rendered V2000/V3000 pairs, and the probe compares both real readers with the
 abstract molecule and with each other.
+
+Scope of the agreement theorem (`C08_readers_agree`, through `V2States`): the mass-difference field of the atom
+block is ` 0`; when `M  CHG` / `M  RAD` / `M  ISO` lines are used, each atom with a value is named exactly once
+(repeated entries and entries with value 0 are covered by `C08_property_block` / `C08_property_block_written`, whose
+closed form takes the last non-zero entry); coordinates agree up to their spelling.  `RendersAll`, the hypothesis
+about the property block, is defined through the reader's line parser; `C08_block_written_in_columns` discharges
+it for every block laid out in the specification's fixed columns.
 -/
 namespace Tucan
 
@@ -41,6 +49,33 @@ theorem C08_property_block (atoms : List (Int × Atom)) (bl : List BlockLine) (l
         rad := nonZero (lastAssigned asg .rad k) <|> base.rad,
         mass := nonZero (lastAssigned asg .mass k) <|> base.mass })) :=
   parseAttributeBlock_spec atoms bl lines tail hlines
+
+/-- **A property block written in the fixed columns of the specification is read as what it states.**
+`RendersAll` — the hypothesis of `C08_property_block`, `C08_connection_table` and, through `IsV2000File`, of
+`C08_readers_agree` — relates text and meaning through the reader's own line parser.  Here the text is produced:
+`M  CHG` / `M  RAD` / `M  ISO` lines laid out by `propLine` (count in columns 7–9, then `aaa vvv` pairs of
+1-based atom number and value, each right-aligned in three columns after a blank) and unrelated lines.  Every
+block written this way satisfies `RendersAll` for the 0-based assignments it states. -/
+theorem C08_block_written_in_columns (atoms : List (Int × Atom)) (ps : List PropText)
+    (hfit : ∀ p ∈ ps, p.Fits atoms) :
+    RendersAll atoms (ps.map PropText.blockLine) (ps.map PropText.line) :=
+  rendersAll_of_propTexts atoms ps hfit
+
+/-- … so for such a block the reader returns the closed form of `C08_property_block` -/
+theorem C08_property_block_written (atoms : List (Int × Atom)) (ps : List PropText) (tail : List Str)
+    (hfit : ∀ p ∈ ps, p.Fits atoms) :
+    parseAttributeBlock (ps.map PropText.line ++ cs "M  END" :: tail) atoms = .ok (atoms.map fun (k, a) =>
+      let asg := allAssignments (ps.map PropText.blockLine)
+      let base := if hasChgOrRad (ps.map PropText.blockLine) then { a with chg := none, rad := none } else a
+      (k, { base with
+        chg := nonZero (lastAssigned asg .chg k) <|> base.chg,
+        rad := nonZero (lastAssigned asg .rad k) <|> base.rad,
+        mass := nonZero (lastAssigned asg .mass k) <|> base.mass })) :=
+  parseAttributeBlock_spec atoms _ _ tail (rendersAll_of_propTexts atoms ps hfit)
+
+/-- non-vacuity: `M  CHG  1   2  -1`, an unrelated line and `M  ISO  2   1  13   2   2` fit a two-atom table -/
+example : ∀ p ∈ [PropText.chg [(2, -1)], PropText.other (cs "M  STY  1   1 SUP"), PropText.iso [(1, 13), (2, 2)]],
+    p.Fits [((0 : Int), ({} : Atom)), ((1 : Int), ({} : Atom))] := propTexts_example
 
 /-- **The whole V2000 connection table.**  Three header lines, the counts line, fixed-column atom lines with
 an atom-block charge code, fixed-column bond lines, atom-list lines, a property block (any mixture of
